@@ -226,6 +226,9 @@ def shards(tier):
 def _length_cases(digest, seed, tier):
     """All output lengths 1..200 for a few short inputs."""
     inputs = [(b"", b""), (b"k", b"m"), (b"\x00" * 16, b"abc"), (hashlib.sha256(str(seed).encode()).digest(), b"x" * 65)]
+    # keys around the HMAC block size of the digest (64 bytes; 128 for sha512): HMAC hashes only keys LONGER than a block
+    blk = hashlib.new(digest).block_size if not digest.startswith("shake") else 64
+    inputs += [((hashlib.sha512(b"blk%d" % d).digest() * 3)[:blk + d], b"m%d" % d) for d in (-1, 0, 1)]
     if tier != "quick":
         inputs += [(hashlib.sha256(b"%d" % i).digest()[: 3 * i % 33], hashlib.sha512(b"%d" % i).digest()[: 7 * i % 64]) for i in range(12)]
     for key, msg in inputs:
@@ -242,7 +245,7 @@ def run_shard(spec, seed, tier):
     res = ShardResult()
     if spec["kind"] == "lengths":
         simple.run_enumeration(res, mod, _length_cases(spec["digest"], seed, tier))
-        res.extra["lengths_bounds"] = "every output length 1..200 per digest for %d short inputs" % (4 if tier == "quick" else 16)
+        res.extra["lengths_bounds"] = "every output length 1..200 per digest for %d inputs incl. keys of block size -1/0/+1" % (7 if tier == "quick" else 19)
     elif spec["kind"] == "fuzz":
         simple.fuzz_stage(res, "props.c16", seed, 30000)
     else:
